@@ -367,6 +367,7 @@ func (self *AofFile) ReadTail(lock *AofLock) error {
 	if fileSize < 76 {
 		return io.EOF
 	}
+	fileSize -= (fileSize - 12) % 64
 	n, err := self.file.ReadAt(buf, fileSize-64)
 	if err != nil {
 		return err
